@@ -9,8 +9,9 @@ sys.path.insert(0, os.path.join(os.path.dirname(os.path.abspath(__file__)), ".."
 from vlib import *
 
 OVERLAY = {"p2p/net/upgrader/zz_c04_verif_test.go": "harness/overlay/c04/c04_verif_test.go",
-           "zz_c04_streams_verif_test.go": "harness/overlay/c04/c04_streams_verif_test.go"}
-SUITES = [("p2p/net/upgrader", "TestVerifC04$"), (".", "TestVerifC04Streams$")]
+           "zz_c04_streams_verif_test.go": "harness/overlay/c04/c04_streams_verif_test.go",
+           "p2p/net/swarm/zz_c04_close_verif_test.go": "harness/overlay/swarm/c04_close_verif_test.go"}
+SUITES = [("p2p/net/upgrader", "TestVerifC04$"), (".", "TestVerifC04Streams$"), ("p2p/net/swarm", "TestVerifC04Close$")]
 
 SPECS = [
     "upgrade_inner=p2p/net/upgrader/upgrader.go:upgrader.upgrade",
@@ -111,7 +112,30 @@ SPECIAL = {0: "", 1: "dial with empty peer ID", 2: "server gater rejects at Inte
            4: "server gater rejects at InterceptAccept", 5: "private network forced, no PSK", 6: "nobody accepts for longer than the accept timeout", 7: "the remote closes while the upgraded conn waits in the accept queue"}
 
 
+def describe_close(t):
+    """kind 5: close race on a real swarm (wire format in coq/c04/Close.v)"""
+    try:
+        n = t[1]
+        i = 2
+        conns = []
+        for c in range(n):
+            add_ok, closed, k = t[i:i + 3]
+            i += 3
+            ss = []
+            for _ in range(k):
+                ss.append({"addStream": {1: "registered", 0: "refused (conn closed)", 2: "no muxed stream created"}.get(t[i], t[i]),
+                           "muxed stream released": t[i + 1]})
+                i += 2
+            conns.append({"addConn": "registered" if add_ok == 1 else "refused (swarm closed)", "fake conn closed": closed, "streams": ss})
+        return {"attempt": "Swarm.Close racing with addConn / NewStream / Conn.Close", "conns": conns,
+                "conns left in swarm": t[i], "system usage (conns, streams)": t[i + 1:i + 3]}
+    except Exception:
+        return {"raw": t}
+
+
 def describe(t):
+    if t and t[0] == 5:
+        return describe_close(t)
     if len(t) != 12:
         return {"raw": t}
     fk = t[2]
@@ -123,14 +147,20 @@ def describe(t):
 
 def nontrivial(line):
     t = line.split()
+    if t and t[0] == b"5":
+        return True     # every close-race case races a Close with adds
     return len(t) == 12 and t[2] not in (b"0", b"100")   # a fault was injected
 
 
 def key(tag, toks, d):
+    if toks and toks[0] == 5:
+        return "C04:%s:close-race:%s:%s" % (tag, " ".join(map(str, toks[1:60])), d)
     return "C04:%s:kind=%d:cfg=%d:fault=%d@%d:%s" % (tag, toks[0], toks[1], toks[2], toks[3], d[4:])
 
 
 def what(tag, toks, d):
+    if toks and toks[0] == 5:
+        return "Swarm.Close racing with addConn/NewStream: something was left open (diag %s: conns closed, streams released, conns left, usage conns, usage streams)" % (d,)
     dd = describe(toks)
     return "%s, %s %s, fault %s at I/O #%s: raw closed=%s usage delta=%s goroutines left=%s" % (
         dd.get("attempt"), dd.get("config"), dd.get("special"), dd.get("fault"), dd.get("at_io_index"),
@@ -145,7 +175,7 @@ if __name__ == "__main__":
     ctx.assumptions = [
         "closing any wrapper of the raw connection (pnet, secure, tracing conn) closes the raw connection; transportConn.Close closes the muxed conn and Dones the scope; Stream.Reset on a registered stream releases its scope (read from upgrader/conn.go, swarm_stream.go; exercised by the fault harness)",
         "goroutine termination and OS descriptors are observed by the fault harness, not proved; QUIC/WebSocket/WebRTC paths are not modelled",
-        "swarm/host Close (usage zero, listeners/conns gone) is not yet covered by a theorem",
+        "swarm Close: the registry protocol of Swarm.conns / Conn.streams (add under the lock refuses when the map is nil; close takes the map and releases every item) is modelled as an LTS in coq/c04/Close.v, one step per critical section / release; the mutexes themselves, closeOnce and the refs WaitGroup are not modelled (Close returning only after refs is zero is observed by the harness); listeners follow the same protocol and are observed by the host-Close cases (kind 4), not modelled",
     ]
     spec = dict(
         consts=consts,
@@ -159,7 +189,11 @@ if __name__ == "__main__":
              "stall until deadline) and each I/O index k (all k for one configuration, first/last/sampled for the others in the quick tier; all in the "
              "thorough tier) one attempt; plus gater rejections at InterceptAccept/InterceptSecured on either side, an outbound dial with an empty peer "
              "ID, private network forced without PSK, metrics with a non-TCP raw conn. Two cases per attempt (one per end): error reported?, raw conn "
-             "closed by the code?, system+transient usage delta, goroutines left. Non-trivial = a fault was injected; distinct = distinct case lines.",
+             "closed by the code?, system+transient usage delta, goroutines left. Non-trivial = a fault was injected; distinct = distinct case lines. "
+             "Close race (kind 5): a real Swarm with the real resource manager is given 1-5 fake upgraded connections through Swarm.addConn from concurrent "
+             "goroutines, 0-3 Conn.NewStream each, random Conn.Close / Stream.Reset, while Swarm.Close runs at a seeded random point (seeded yields/sleeps); "
+             "after everything returned: what each addConn/addStream answered, whether every fake conn / muxed stream was closed, Swarm.Conns(), system usage. "
+             "The model (Close.v) is run on the schedule these answers determine and must end in the same per-item statuses.",
         describe=describe, key=key, what=what, crosscheck=60, search_seeds=[],
     )
     # if the balance theorem breaks, put the model's list of unbalanced paths into the notes
